@@ -140,5 +140,8 @@ class MessageRouter :
 
     def routeMessage(self, m):
         # print 'ROUTING MSG', m.interface, m.member
-        for r in self._rules.values():
-            r.match(m)
+        # a callback may add or remove rules: walk a snapshot and skip the
+        # rules removed in the meantime
+        for r in list(self._rules.values()):
+            if r.id in self._rules:
+                r.match(m)
